@@ -14,6 +14,7 @@ with emmansun/gmsm on every correspondence run (see checks/C04.json, trusted bas
 -/
 import Gotlcp.Lemmas.KeyScheduleRecord
 import Gotlcp.Lemmas.KeyScheduleWrite
+import Gotlcp.Lemmas.KeyScheduleRx
 import Gotlcp.Tie.PaddingDtlcp
 import Gotlcp.Tie.Seq
 import Gotlcp.Tie.KeySched
@@ -27,6 +28,7 @@ open Gotlcp.Crypto
 open Gotlcp.Lemmas.KeySchedule
 open Gotlcp.Lemmas.KeyScheduleRecord
 open Gotlcp.Lemmas.KeyScheduleWrite
+open Gotlcp.Lemmas.KeyScheduleRx
 open Gotlcp.Model.KeySchedule
 
 /-! ### the regenerated facts the other theorems (and the model) rely on -/
@@ -98,6 +100,12 @@ theorem C04_facts :
     Facts.tlcp.writeRecordPerRecord = ["encrypt", "write"] ∧
     Facts.dtlcp.writeRecordPerRecord = ["c.setWriteSeq()", "encrypt", "c.writeSeq++", "write"] ∧
     srcTlcp.seqConsumedOnWriteError = true ∧ srcDtlcp.seqConsumedOnWriteError = true ∧
+    -- the receive paths (tlcp Read; dtlcp Read and ReadFrom) take the content of a record from
+    -- `c.in.decrypt` ONLY, and UNCONDITIONALLY (no if / else / case above the call): what `rxDeliver`
+    -- transcribes and `C04_rx_delivers_only_authentic` is about
+    Facts.tlcp.rxContentSources = ["Conn.readRecordOrCCS|-|data, typ, err := c.in.decrypt(record)"] ∧
+    Facts.dtlcp.rxContentSources = ["Conn.ReadFrom|-|plaintext, actualTyp, err := c.in.decrypt(record)",
+      "Conn.readRecordOrCCS|-|data, typ, err := c.in.decrypt(record)"] ∧
     -- what enters the additional data / the MAC
     Facts.tlcp.encryptADParts = ["|", "hc.seq[:]...", "record[:recordHeaderLen]..."] ∧
     Facts.tlcp.decryptADParts = ["|", "hc.seq[:]...", "record[:3]...", "byte(n >> 8), byte(n)"] ∧
@@ -649,6 +657,205 @@ example :
     (writeHistory toy srcDtlcp .dtlcp 0x0101 ⟨⟨some (.aead ⟨[], [2], [3, 3, 3, 3]⟩), none, zeroSeq⟩, 1, 5⟩
       [(23, [1, 2, 3], [], false), (21, [1, 0], [], true)]).map (·.1) = [be 2 1 ++ be 6 5, be 2 1 ++ be 6 6] := by decide
 
+
+/-! ### the receiving side: nothing that was not sealed under the direction's key is handed on -/
+
+def modeOf : Cipher → Spec.KeySchedule.Mode
+  | .cbc _ => .cbc
+  | .aead _ => .gcm
+
+def keysOf : Cipher → DirKeys
+  | .cbc k => k
+  | .aead k => k
+
+/-- **Whatever `halfConn.decrypt` hands on is authentic.**  For both stacks, both cipher kinds, every
+key (AEAD: 4-byte write IV), every header (type, version, epoch, sequence number) and EVERY body —
+sealed by anyone, rewritten, or never protected at all — and ANY MAC / block function / AEAD (no law
+is assumed): if the model's `decrypt`, under an installed cipher and with the sequence number loaded
+as the receive paths load it, returns a content `x`, then `x` is authentic in the standard's sense
+(`Spec.KeySchedule.Authentic`): GCM — the AEAD opened the ciphertext to `x` under the cipher's key,
+write IV ‖ explicit nonce and additional data seq_num (DTLCP: epoch ‖ sequence_number) + type +
+version + length; CBC — `x` is the front of the decryption under the cipher's key and is followed by
+HMAC(MAC key, seq_num + type + version + length + x).  A plaintext body has no way through. -/
+theorem C04_delivered_is_authentic (P : Prims) (st : Stack) (c : Cipher) (next : Option Cipher)
+    (typ ver epoch seq : Nat) (body x : Bytes) (h' : Half)
+    (hiv : ∀ k, c = .aead k → k.iv.length = 4)
+    (h : decrypt P (srcOf st) st ⟨some c, next, Spec.KeySchedule.seqNum (specStack st) epoch seq⟩
+        (Spec.KeySchedule.header (specStack st) typ ver epoch seq body.length ++ body) = .ok (x, h')) :
+    Spec.KeySchedule.Authentic P (modeOf c) (specKeys (keysOf c)) (specStack st) typ ver epoch seq body x := by
+  cases st with
+  | tlcp =>
+    cases c with
+    | aead k => exact authentic_aead_tlcp P k next typ ver epoch seq body x h' (hiv k rfl) h
+    | cbc k => exact authentic_cbc_tlcp P k next typ ver epoch seq body x h' h
+  | dtlcp =>
+    cases c with
+    | aead k => exact authentic_aead_dtlcp P k next typ ver epoch seq body x h' (hiv k rfl) h
+    | cbc k => exact authentic_cbc_dtlcp P k next typ ver epoch seq body x h' h
+
+/-- **The receive path hands only authentic content to the record-type switch.**  `rxDeliver` is
+`Conn.readRecordOrCCS` from the bytes of a record to `switch typ` (the place where application data
+is given to `Read`, alerts are acted upon, handshake / ChangeCipherSpec records are looked at) on a
+connection whose read cipher is installed: for every record — any type, any epoch, any sequence
+number, any body, at any moment after the peer's ChangeCipherSpec — what arrives there carries the
+type of the header, is authentic under the installed cipher's keys with the header's epoch and
+sequence number (TLCP: the implicit counter), type, version and length, the version is the
+connection's and (DTLCP) the epoch is not older than the read epoch.  So a record that was never
+protected — plaintext behind an epoch-0 header included — yields nothing, whatever the connection
+is waiting for (its dwell period, the first application record, …). -/
+theorem C04_rx_delivers_only_authentic (P : Prims) (st : Stack) (c : Cipher) (next : Option Cipher) (sq : Bytes)
+    (vers readEpoch typ ver epoch seq : Nat) (body x : Bytes) (t : Nat)
+    (hiv : ∀ k, c = .aead k → k.iv.length = 4)
+    (ht : typ < 256) (hv : ver < 65536) (he : epoch < 65536)
+    (hsq : st = .tlcp → sq = be 8 seq)
+    (h : rxDeliver P (srcOf st) st ⟨⟨some c, next, sq⟩, vers, readEpoch⟩
+        (Spec.KeySchedule.header (specStack st) typ ver epoch seq body.length ++ body) = some (t, x)) :
+    t = typ ∧ ver = vers ∧ (st = .dtlcp → readEpoch ≤ epoch) ∧
+    Spec.KeySchedule.Authentic P (modeOf c) (specKeys (keysOf c)) (specStack st) typ ver epoch seq body x := by
+  have hb3 : be 1 typ ++ be 2 ver = [UInt8.ofNat typ, UInt8.ofNat (ver / 256), UInt8.ofNat ver] := by simp [be]
+  have htyp : (UInt8.ofNat typ).toNat = typ := by simp; omega
+  have two : ∀ n, n < 65536 → (UInt8.ofNat (n / 256)).toNat * 256 + (UInt8.ofNat n).toNat = n := by
+    intro n hn; simp; omega
+  have hver := two ver hv
+  have hep := two epoch he
+  cases st with
+  | tlcp =>
+    have hS : (srcOf .tlcp).recordHeaderLen = 5 := rfl
+    have hrec : Spec.KeySchedule.header .tlcp typ ver epoch seq body.length ++ body
+        = [UInt8.ofNat typ, UInt8.ofNat (ver / 256), UInt8.ofNat ver] ++ be 2 body.length ++ body := by
+      simp only [Spec.KeySchedule.header]; rw [hb3]
+    have hdec := fun y => C04_delivered_is_authentic P .tlcp c next typ ver epoch seq body y
+    simp only [specStack, Spec.KeySchedule.seqNum] at hdec h
+    rw [hsq rfl] at h
+    unfold rxDeliver at h
+    simp only [hS] at h
+    split at h
+    · simp at h
+    · rw [hrec] at h
+      have g0 : ([UInt8.ofNat typ, UInt8.ofNat (ver / 256), UInt8.ofNat ver] ++ be 2 body.length ++ body).getD 0 0 = UInt8.ofNat typ := by simp
+      have g1 : ([UInt8.ofNat typ, UInt8.ofNat (ver / 256), UInt8.ofNat ver] ++ be 2 body.length ++ body).getD 1 0 = UInt8.ofNat (ver / 256) := by simp
+      have g2 : ([UInt8.ofNat typ, UInt8.ofNat (ver / 256), UInt8.ofNat ver] ++ be 2 body.length ++ body).getD 2 0 = UInt8.ofNat ver := by simp
+      simp only [g0, g1, g2, htyp, hver] at h
+      split at h
+      · simp at h
+      · rename_i hvv
+        split at h
+        · simp at h
+        · rw [← hrec] at h
+          split at h
+          · rename_i data hh heq
+            obtain ⟨e1, e2⟩ := (Prod.mk.inj (Option.some.inj h))
+            subst e2
+            exact ⟨e1.symm, (by simpa using hvv), (by intro hc; cases hc), hdec _ hh hiv heq⟩
+          · simp at h
+  | dtlcp =>
+    have hS : (srcOf .dtlcp).recordHeaderLen = 13 := rfl
+    have hdec := fun y => C04_delivered_is_authentic P .dtlcp c next typ ver epoch seq body y
+    simp only [specStack, Spec.KeySchedule.seqNum] at hdec h
+    have hrec := dtlcp_record_shape typ ver epoch seq body
+    unfold rxDeliver at h
+    simp only [hS] at h
+    split at h
+    · simp at h
+    · rw [hrec] at h
+      have hel : (be 2 epoch ++ be 6 seq).length = 8 := by simp [length_be]
+      have g0 : ([UInt8.ofNat typ, UInt8.ofNat (ver / 256), UInt8.ofNat ver] ++ ((be 2 epoch ++ be 6 seq) ++ be 2 body.length) ++ body).getD 0 0 = UInt8.ofNat typ := by simp
+      have g1 : ([UInt8.ofNat typ, UInt8.ofNat (ver / 256), UInt8.ofNat ver] ++ ((be 2 epoch ++ be 6 seq) ++ be 2 body.length) ++ body).getD 1 0 = UInt8.ofNat (ver / 256) := by simp
+      have g2 : ([UInt8.ofNat typ, UInt8.ofNat (ver / 256), UInt8.ofNat ver] ++ ((be 2 epoch ++ be 6 seq) ++ be 2 body.length) ++ body).getD 2 0 = UInt8.ofNat ver := by simp
+      have g3 : ([UInt8.ofNat typ, UInt8.ofNat (ver / 256), UInt8.ofNat ver] ++ ((be 2 epoch ++ be 6 seq) ++ be 2 body.length) ++ body).getD 3 0 = UInt8.ofNat (epoch / 256) := by simp [be]
+      have g4 : ([UInt8.ofNat typ, UInt8.ofNat (ver / 256), UInt8.ofNat ver] ++ ((be 2 epoch ++ be 6 seq) ++ be 2 body.length) ++ body).getD 4 0 = UInt8.ofNat epoch := by simp [be]
+      have hs8 : (([UInt8.ofNat typ, UInt8.ofNat (ver / 256), UInt8.ofNat ver] ++ ((be 2 epoch ++ be 6 seq) ++ be 2 body.length) ++ body).drop 3).take 8
+          = be 2 epoch ++ be 6 seq := by
+        simp only [List.append_assoc]
+        rw [List.drop_append_of_le_length (by simp), List.drop_of_length_le (by simp)]
+        simp only [List.nil_append]
+        rw [← List.append_assoc (be 2 epoch), List.take_append_of_le_length (by omega), List.take_of_length_le (by omega)]
+      simp only [g0, g1, g2, g3, g4, htyp, hver, hep, hs8] at h
+      split at h
+      · simp at h
+      · rename_i hvv
+        split at h
+        · simp at h
+        · rw [← hrec] at h
+          split at h
+          · rename_i data hh heq
+            split at h
+            · simp at h
+            · rename_i hle
+              obtain ⟨e1, e2⟩ := (Prod.mk.inj (Option.some.inj h))
+              subst e2
+              exact ⟨e1.symm, (by simpa using hvv), (by intro _; omega), hdec _ hh hiv heq⟩
+          · simp at h
+
+/-- The standard's own receiver (`Spec.KeySchedule.receive`, which judges every receive-path case of
+the correspondence run) hands on authentic content only, of the negotiated version and (DTLCP) of the
+read state's epoch — the same predicate the implementation's receive path is proved to satisfy. -/
+theorem C04_spec_receive_authentic (P : Prims) (st : Spec.KeySchedule.Stack) (rs : Spec.KeySchedule.ReadState)
+    (ver : Nat) (rec x : Bytes) (t : Nat) (h : Spec.KeySchedule.receive P st rs ver rec = some (t, x)) :
+    ∃ p, Spec.KeySchedule.parse st rec = some (p, []) ∧ p.typ = t ∧ p.ver = ver ∧ (st = .dtlcp → p.epoch = rs.epoch) ∧
+      Spec.KeySchedule.Authentic P rs.mode rs.keys st p.typ p.ver p.epoch
+        (if st = .tlcp then rs.seq else p.seq) p.body x := by
+  cases st with
+  | tlcp =>
+    simp only [Spec.KeySchedule.receive] at h
+    split at h
+    · rename_i p hp
+      split at h
+      · simp at h
+      · rename_i hv
+        split at h
+        · simp at h
+        · split at h
+          · rename_i y hy
+            obtain ⟨e1, e2⟩ := Prod.mk.inj (Option.some.inj h)
+            subst e2
+            exact ⟨p, hp, e1, (by simpa using hv), (by intro hc; cases hc),
+              (by simpa using openBody_authentic P rs.mode rs.keys .tlcp p.typ p.ver p.epoch _ p.body _ hy)⟩
+          · simp at h
+    · simp at h
+  | dtlcp =>
+    simp only [Spec.KeySchedule.receive] at h
+    split at h
+    · rename_i p hp
+      split at h
+      · simp at h
+      · rename_i hv
+        split at h
+        · simp at h
+        · rename_i hepo
+          split at h
+          · rename_i y hy
+            obtain ⟨e1, e2⟩ := Prod.mk.inj (Option.some.inj h)
+            subst e2
+            exact ⟨p, hp, e1, (by simpa using hv), (by intro _; simpa using hepo),
+              (by simpa using openBody_authentic P rs.mode rs.keys .dtlcp p.typ p.ver p.epoch _ p.body _ hy)⟩
+          · simp at h
+    · simp at h
+
+/-- non-vacuity: a DTLCP CBC record sealed by the standard for epoch 1 / sequence number 7 reaches the
+type switch with its content … -/
+example :
+    rxDeliver toy srcDtlcp .dtlcp ⟨⟨some (.cbc ⟨[1], [2], [3]⟩), none, zeroSeq⟩, 0x0101, 1⟩
+      (Spec.KeySchedule.sealCBC toy ⟨[1], [2], [3]⟩ .dtlcp 23 0x0101 1 7 (List.replicate 16 9) [10, 20, 30])
+      = some (23, [10, 20, 30]) := by decide
+/-- … while the same content, NEVER PROTECTED, behind an epoch-0 (or epoch-1) application-data header
+yields nothing — 64 plaintext bytes, long enough to pass every length check; TLCP likewise -/
+example :
+    rxDeliver toy srcDtlcp .dtlcp ⟨⟨some (.cbc ⟨[1], [2], [3]⟩), none, zeroSeq⟩, 0x0101, 1⟩
+      (Spec.KeySchedule.header .dtlcp 23 0x0101 0 7 64 ++ (List.range 64).map UInt8.ofNat) = none := by decide
+example :
+    rxDeliver toy srcDtlcp .dtlcp ⟨⟨some (.cbc ⟨[1], [2], [3]⟩), none, zeroSeq⟩, 0x0101, 1⟩
+      (Spec.KeySchedule.header .dtlcp 23 0x0101 1 7 64 ++ (List.range 64).map UInt8.ofNat) = none := by decide
+example :
+    rxDeliver toy srcTlcp .tlcp ⟨⟨some (.cbc ⟨[1], [2], [3]⟩), none, be 8 7⟩, 0x0101, 0⟩
+      (Spec.KeySchedule.header .tlcp 21 0x0101 0 0 64 ++ (List.range 64).map UInt8.ofNat) = none := by decide
+example :
+    Spec.KeySchedule.receive toy .dtlcp ⟨.cbc, ⟨[1], [2], [3]⟩, 1, 0⟩ 0x0101
+      (Spec.KeySchedule.header .dtlcp 23 0x0101 0 7 64 ++ (List.range 64).map UInt8.ofNat) = none := by decide
+example :
+    Spec.KeySchedule.receive toy .dtlcp ⟨.cbc, ⟨[1], [2], [3]⟩, 1, 0⟩ 0x0101
+      (Spec.KeySchedule.sealCBC toy ⟨[1], [2], [3]⟩ .dtlcp 23 0x0101 1 7 (List.replicate 16 9) [10, 20, 30])
+      = some (23, [10, 20, 30]) := by decide
 
 /-! ### the padding check of the TRANSLATED source, both stacks -/
 
